@@ -340,6 +340,57 @@ func checkC16(w *World, r *Run) {
 	}
 	r.Check(rdOK, ruleSeek, "seekable Read decrypts the segment of the current position before copying from it", read.Pos(), "loadSegment(segmentForPlaintextOffset(pos)) succeeded on every path that copies", "bytes are copied from a segment that was not (successfully) loaded for the current position")
 
+	// a clean EOF only after the final segment was authenticated
+	eofOK, nEOF := true, 0
+	for _, ret := range returnsOf(read) {
+		ei := errorResultIndex(read)
+		if ei < 0 || !globalErrLoaded(retResult(ret, ei), "EOF") {
+			continue
+		}
+		nEOF++
+		ok := everyPathEstablishes(ret.Block(), func(f Fact) bool {
+			if n, _ := fieldLoadName(f.Val); n == "endVerified" && f.Kind == IsTrue {
+				return true
+			}
+			if c, _ := extractOf(f.Val); c != nil && f.Kind == IsNil && isCallNamed(c, "loadSegment") {
+				// loadSegment(numSegments − 1)
+				if bo, isBin := c.Call.Args[len(c.Call.Args)-1].(*ssa.BinOp); isBin && bo.Op == token.SUB {
+					if nm, _ := fieldLoadName(bo.X); nm == "numSegments" {
+						return true
+					}
+				}
+			}
+			return false
+		})
+		if !ok {
+			eofOK = false
+		}
+	}
+	r.Check(eofOK && nEOF > 0, ruleSeg, "seekable Read reports EOF only after the final segment was authenticated", read.Pos(), "endVerified, or loadSegment(numSegments−1) succeeded, on every path to io.EOF", "a final segment that holds no (or few) plaintext bytes is never loaded: a stored part cut just past a segment boundary is read as a clean, shorter plaintext")
+	flagOK := false
+	for _, st := range fieldStoresIn(load, false, "seekableDecryptingReader")["endVerified"] {
+		if b, isb := boolConst(st.val); isb && b {
+			for _, f := range factsAt(st.ins.Block()) {
+				if f.Kind == EqConst && f.Other != nil {
+					if bo, isBin := f.Other.(*ssa.BinOp); isBin && bo.Op == token.SUB {
+						if nm, _ := fieldLoadName(bo.X); nm == "numSegments" {
+							flagOK = true
+						}
+					}
+					if bo, isBin := f.Val.(*ssa.BinOp); isBin && bo.Op == token.SUB {
+						if nm, _ := fieldLoadName(bo.X); nm == "numSegments" {
+							flagOK = true
+						}
+					}
+				}
+			}
+			if open != nil && !instrDominates(open, st.ins) {
+				flagOK = false
+			}
+		}
+	}
+	r.Check(flagOK, ruleSeg, "endVerified is set only after the last segment decrypted", load.Pos(), "set under j == numSegments−1 after Open", "the end-of-stream flag is set without the last segment having been authenticated")
+
 	// sibling arithmetic (AST: the two helper functions define pss and firstPss identically)
 	fa, fb := w.Decl(w.Func(relTink, "seekableDecryptingReader.segmentForPlaintextOffset")), w.Decl(w.Func(relTink, "seekableDecryptingReader.plaintextStartOfSegment"))
 	if fa == nil || fb == nil {
